@@ -277,11 +277,17 @@ func e2eExec(c *e2eCase, work string, tr *vTrace, logLines bool) (*e2eResult, ma
 				if t := client(); t != nil {
 					pauseStarted = true
 					pauseMu.Lock()
-					pausedNow = true
 					nPauses++
 					pauseMu.Unlock()
 					stopAt = time.Now()
-					tr.Emit(map[string]any{"e": "pause", "run": c.ID, "g": m.G}, func() { t.pauseTransferringFiles() })
+					// "paused" from the moment the pause call has returned: chunks written before that are not
+					// chunks written while paused
+					tr.Emit(map[string]any{"e": "pause", "run": c.ID, "g": m.G}, func() {
+						t.pauseTransferringFiles()
+						pauseMu.Lock()
+						pausedNow = true
+						pauseMu.Unlock()
+					})
 					go func() {
 						cycles := pa.Cycles
 						if cycles < 1 {
@@ -299,10 +305,14 @@ func e2eExec(c *e2eCase, work string, tr *vTrace, logLines bool) (*e2eResult, ma
 							if i+1 < cycles {
 								time.Sleep(30 * time.Millisecond)
 								pauseMu.Lock()
-								pausedNow = true
 								nPauses++
 								pauseMu.Unlock()
-								if !emitLive(map[string]any{"e": "pause", "run": c.ID, "g": -1}, func() { t.pauseTransferringFiles() }) {
+								if !emitLive(map[string]any{"e": "pause", "run": c.ID, "g": -1}, func() {
+									t.pauseTransferringFiles()
+									pauseMu.Lock()
+									pausedNow = true
+									pauseMu.Unlock()
+								}) {
 									return
 								}
 							}
@@ -533,7 +543,11 @@ func e2eShmBase() string {
 }
 
 func e2eName(kind int, i int) string {
-	switch kind % 5 {
+	switch kind % 7 {
+	case 5: // code points whose low byte is '/' or '\\': a name check must not truncate runes
+		return fmt.Sprintf("me\u012fl\u0117-\u592f\u5b9e-%d", i)
+	case 6:
+		return fmt.Sprintf("\u015c\u4e5c [%d]*?.dat", i)
 	case 1:
 		return fmt.Sprintf("文件 %d.txt", i)
 	case 2:
